@@ -23,3 +23,13 @@ claim('C10', 'deterministic simulation (partial fit): seeded interleaving/slot-r
 claim('C11', 'deterministic simulation: every record stamped with the global source-event number, timed models',
       'Every record at every tap carries the number of the source event being processed; for each operator instance whose values agree with its model the stamps must agree too (per-item/running = the item\'s event, completion-triggered = the key\'s completion event, batch = n-th item, window close = closing item). Nested windows, groups, tees; source error/dispose at arbitrary events.',
       MODEL_NOTE, 'DESIGN.md 4/C11')
+DIFF_NOTE = TRUST + ' The differential oracles need no model of operator semantics: they compare the real code with itself in a simpler context.'
+claim('C01', 'deterministic simulation: seeded program x interleaving search, differential mux path vs plain RxPY path per group',
+      'Random pipelines over the dual-mode operators (preconditions of the text enforced by the type checker) are run by the real code twice: multiplexed under group_by with K interleaved parties, and per group on the plain-observable branch of every isinstance dispatch; outputs per group must be equal element-wise with type.',
+      DIFF_NOTE, 'DESIGN.md 4/C01')
+claim('C02', 'deterministic simulation: seeded interleaving x lifetime-history x crash-point search, differential against the inner pipeline run stand-alone',
+      'Wrappers (group_by/roll/split/time_split, nested) around stateful inner pipelines; for every key lifetime observed at the head of every inner pipeline the real inner pipeline is re-run alone on exactly that lifetime\'s items and must give the records seen in place, including lifetimes cut by a source error or dispose at an arbitrary event.',
+      DIFF_NOTE, 'DESIGN.md 4/C02')
+claim('C08', 'deterministic simulation: seeded interleaving x lifetime search, differential (each branch alone) + join model',
+      'tee_map with 2-4 branches and the three joins under fresh and reused key slots and on plain observables: each branch re-run alone under the same wrapper and schedule must reproduce its in-tee records; branch outputs ordered by causing input record are joined by a small model and compared with the tee\'s output (values and source event).',
+      DIFF_NOTE, 'DESIGN.md 4/C08')
